@@ -119,13 +119,20 @@ def t_visgroup(v: VMF) -> None:
     e.visgroup_ids.add(g.id)
 
 
+def t_alias_classes(v: VMF) -> None:
+    """Classnames that are aliases in the engine database (their keyvalue types are inherited through the aliased class)."""
+    v.create_ent('env_glow', origin='3 3 3', targetname='glow', parentname='par')
+    v.create_ent('dynamic_prop', origin='4 4 4', angles='0 90 0', targetname='dyn', parentname='glow')
+    v.create_ent('momentary_door', origin='5 5 5', targetname='mdoor').add_out(Output('OnFullyOpen', 'glow', 'ShowSprite'))
+
+
 def t_push(v: VMF) -> None:
     e = v.create_ent('trigger_push', origin='0 0 0', pushdir='0 90 0', targetname='push')
     e.solids.append(v.make_prism(Vec(-8, -8, -8), Vec(8, 8, 8), mat='tools/toolstrigger').solid)
 
 
 TEMPLATE_FEATURES = [(f.__name__[2:], f) for f in [t_world_brush, t_disp, t_strata_points, t_brush_ent, t_point_ent, t_pitch_ent, t_relay,
-                                                   t_vars, t_nested, t_hidden, t_overlay, t_visgroup, t_push]]
+                                                   t_vars, t_nested, t_hidden, t_overlay, t_visgroup, t_alias_classes, t_push]]
 TF = dict(TEMPLATE_FEATURES)
 
 PLACEMENTS = {
@@ -136,6 +143,8 @@ PLACEMENTS = {
     'roll90': ((0, 0, -8), (0, 0, 90)),
     'general': ((-100.5, 200.25, 33), (30, 45, 60)),
     'tiny': ((1, 2, 3), (359.99999999999994, 1e-14, 0)),
+    'flip_roll': ((4, 0, 0), (0, 45, 180)),          # mounted upside down: up axis along -Z
+    'flip_pitch': ((0, 4, 0), (180, 30, 0)),
 }
 FIXUP_TABLES = {
     'none': [],
@@ -555,6 +564,50 @@ def check_termination(acc: core.Acc, gname: str, limit) -> None:
 
 # ------------------------------------------------------------------------------------------------
 
+# ------------------------------------------------------------------------------------------------ collapse_all naming
+
+def check_collapse_all_names(acc: core.Acc, style: str) -> None:
+    """collapse_all() of a map with named and UNNAMED func_instance entities: every instance's entities are renamed with the
+    instance's own (for unnamed ones: generated, non-empty, distinct) name, consistently with the targets of their outputs."""
+    acc.evaluations += 1
+    acc.nontrivial += 1
+    case = {'collapse_all_names': style}
+    t = VMF()
+    t.create_ent('logic_relay', origin='0 0 0', targetname='r').add_out(Output('OnTrigger', 'door', 'Open'))
+    t.create_ent('func_door', origin='8 0 0', targetname='door')
+    fsys = VirtualFileSystem({'t.vmf': t.export(inc_version=False)})
+    main = VMF()
+    style_num = {'PREFIX': '0', 'SUFFIX': '1', 'NONE': '2'}[style]
+    main.create_ent('func_instance', file='t.vmf', origin='0 0 0', angles='0 0 0', targetname='named', fixup_style=style_num)
+    main.create_ent('func_instance', file='t.vmf', origin='64 0 0', angles='0 90 0', fixup_style=style_num)
+    main.create_ent('func_instance', file='t.vmf', origin='128 0 0', angles='0 0 0', targetname='', fixup_style=style_num)
+    try:
+        collapse_all(main, fsys)
+    except Exception as exc:  # noqa: BLE001
+        acc.fail('collapse_all_raises', case, f'collapse_all with unnamed instances ({style}) raised {type(exc).__name__}: {exc}', graph='names')
+        return
+    relays = [e for e in main.entities if e['classname'] == 'logic_relay']
+    doors = {e['targetname'] for e in main.entities if e['classname'] == 'func_door'}
+    if len(relays) != 3 or len(doors) != (3 if style != 'NONE' else 1):
+        acc.fail('collapse_name', case, f'{style}: {len(relays)} relays, door names {sorted(doors)}', clause='name')
+        return
+    affixes = []
+    for e in relays:
+        nm, targ = e['targetname'], e.outputs[0].target
+        if style == 'NONE':
+            ok, aff = (nm == 'r' and targ == 'door'), ''
+        elif style == 'PREFIX':
+            ok, aff = (nm.endswith('-r') and targ == nm[:-1] + 'door' and len(nm) > 2), nm[:-2]
+        else:
+            ok, aff = (nm.startswith('r-') and targ == 'door' + nm[1:] and len(nm) > 2), nm[2:]
+        if not ok or (style != 'NONE' and targ not in doors):
+            acc.fail('collapse_name', case, f'{style}: relay named {nm!r} fires {targ!r} (doors: {sorted(doors)})', clause='name')
+            return
+        affixes.append(aff)
+    if style != 'NONE' and (len(set(affixes)) != 3 or 'named' not in affixes):
+        acc.fail('collapse_name', case, f'{style}: instance names used for the three collapses: {affixes} (must be distinct, one of them "named")', clause='name')
+
+
 # ------------------------------------------------------------------------------------------------ visgroup= option
 
 def vis_template() -> str:
@@ -650,6 +703,8 @@ def shard(spec) -> core.Acc:
             for pre in (0, 1, 5):
                 for placement in ('identity', 'general'):
                     check_visgroup_modes(acc, mode, pre, placement)
+        for style in ('PREFIX', 'SUFFIX', 'NONE'):
+            check_collapse_all_names(acc, style)
         acc.sample({'visgroup_modes': ['false', 'true', 'group'], 'pre_groups': [0, 1, 5]}, 1)
         return acc
     if spec[0] == 'cases':
@@ -699,7 +754,9 @@ def run(ctx: core.Ctx) -> None:
 
 def replay(case: dict) -> list:
     acc = core.Acc()
-    if 'visgroup_mode' in case:
+    if 'collapse_all_names' in case:
+        check_collapse_all_names(acc, case['collapse_all_names'])
+    elif 'visgroup_mode' in case:
         check_visgroup_modes(acc, case['visgroup_mode'], case['pre_groups'], case['placement'])
     elif 'template' in case:
         run_case(acc, tuple(case['template']), case['placement'], FixupStyle[case['style']], case['table'], {})
